@@ -4,16 +4,26 @@
    FULL property (properties.jsonl C01 / DESIGN.md): for every supported AIR, valid trace, admissible options with a
    well-formed FRI schedule, field, extension and hasher:  prove t = Ok pi /\ verify pi = Ok /\
    verify (from_bytes (to_bytes pi)) = Ok  for the REAL prover/verifier.
-   PROVED here (`..._partial`): the statement for the algebraic model of Model/Stark.v with the completeness of the
-   Merkle / FRI / interpolation / transcript stages as named hypotheses (they are premises of the theorem below, not
-   axioms); every other stage is a theorem for all fields, sizes and coins.  Not covered by any theorem here: the
-   byte-level round trip (C12), the coin's 1000-try limit (C19), Lagrange-kernel columns; the real code is tied to
-   this model only at the shape level (correspondence) and by the end-to-end falsifier of checks/c01.py. *)
+   PROVED here: `C01_stark_complete` — the statement for the algebraic model of Model/Stark.v with its stages instantiated
+   by the models of the other properties and their premises DISCHARGED from the exported theorems:
+     merkle_complete   <- C10_new_ok, C10_build_nodes_spec, C10_batch_complete   (C01_merkle_complete_inst)
+     interp_complete, coset_off_domain <- C09_interpolate_with_offset_spec        (C01_interp_complete_inst)
+     transcript_agree  <- C04_transcript_agree                                     (C01_transcript_agree_inst)
+     divisor zero sets <- C16_transition_divisor_is_polynomial, assertion_evaluate_at (C01_transition/assertion_divisor_inst)
+     fri_complete      <- C15_fri_complete (+ C10 for the layer trees)             (C01_fri_complete_inst)
+   NO stage premise remains in `C01_stark_complete`.  `C01_stark_complete_generic_fri` keeps an arbitrary FRI stage with
+   fri_complete as its one stage premise; the generic
+   `C01_stark_complete_partial` / `..._valid_trace_partial` keep all stages as explicit premises (they are premises,
+   not axioms).  Not covered by any theorem here: the byte-level round trip (C12), the coin's 1000-try limit (C19),
+   Lagrange-kernel columns; the real code is tied to this model at the shape level and for the DEEP composition
+   (correspondence) and by the end-to-end falsifier of checks/c01.py. *)
 From Coq Require Import List Arith Bool ZArith Lia.
 From VBase Require Import FieldOps.
 From VModel Require Import Stark.
 From VModel Require Polynom.
-From VProofs Require Import StarkPoly StarkDeep StarkComplete StarkShape StarkTie StarkExamples.
+From VModel Require FFT Merkle Transcript Enforce Fri.
+From VProofs Require FFTSpec FFTEval FFTOffset TranscriptRun TranscriptExamples.
+From VProofs Require Import StarkPoly StarkDeep StarkComplete StarkShape StarkTie StarkInst StarkFri StarkExamples StarkInstExample StarkFriExample.
 Import ListNotations.
 
 Section Statements.
@@ -87,15 +97,17 @@ Proof. exact (query_consistency O L). Qed.
 
 (* ---- capstone (partial: stage hypotheses are explicit premises) *)
 Theorem C01_stark_complete_partial :
-  forall (Digest FriProof : Type) (commit : list (list F) -> Digest) (open_ok : Digest -> F -> list F -> bool)
-    (fri_prove : list F -> FriProof) (fri_verify : FriProof -> nat -> list F -> list F -> bool)
+  forall (Digest Opening FriProof : Type) (commit : list (list F) -> Digest)
+    (open_prove : list (list F) -> list F -> Opening) (open_ok : Digest -> list F -> list (list F) -> Opening -> bool)
+    (fri_prove : list F -> list F -> FriProof) (fri_verify : FriProof -> nat -> list F -> list F -> bool)
     (air_eval : F -> list F -> list F -> F) (interp_ce : (F -> F) -> list F)
     (n cols ce_size : nat) (g : F) (ce_coset lde : list F),
-  (* merkle_complete (C10 + C09) *)
-  (forall (cs : list (list F)) x, In x lde -> open_ok (commit cs) x (evals O cs x) = true) ->
+  (* merkle_complete (C10 + C09; discharged in C01_stark_complete) *)
+  (forall (cs : list (list F)) xs, incl xs lde -> NoDup xs -> xs <> [] -> length xs <= 255 ->
+     open_ok (commit cs) xs (map (evals O cs) xs) (open_prove cs xs) = true) ->
   (* fri_complete (C15) *)
-  (forall d xs, length d = n -> last d zero = zero -> incl xs lde ->
-     fri_verify (fri_prove d) (n - 2) xs (map (peval O d) xs) = true) ->
+  (forall d xs, length d = n -> last d zero = zero -> incl xs lde -> xs <> [] -> length xs <= 255 ->
+     fri_verify (fri_prove d xs) (n - 2) xs (map (peval O d) xs) = true) ->
   (* interp_complete (C09) *)
   (forall f Q, length Q <= ce_size -> (forall x, In x ce_coset -> f x = peval O Q x) ->
      interp_ce f = Q ++ repeat zero (ce_size - length Q)) ->
@@ -111,20 +123,23 @@ Theorem C01_stark_complete_partial :
   (* z outside the trace domain, z and z*g non-zero (syn_div_in_place asserts a non-zero divisor point); query points are
      LDE points different from z and z*g  (ASSUMPTION, probability <= 2^-30) *)
   ~ In (c_z cP) (domain O g n) -> c_z cP <> zero -> c_z cP *f g <> zero -> incl (c_xs cP) lde ->
+  NoDup (c_xs cP) -> c_xs cP <> [] -> length (c_xs cP) <= 255 ->
   (forall x, In x (c_xs cP) -> x <> c_z cP /\ x <> c_z cP *f g) ->
-  exists pf, prove O Digest FriProof commit fri_prove air_eval interp_ce (mkParams n g cols false dbg) cP Ts = Done pf /\
-             verify O Digest FriProof open_ok fri_verify air_eval (mkParams n g cols false dbg) cV pf = None.
+  exists pf, prove O Digest Opening FriProof commit open_prove fri_prove air_eval interp_ce (mkParams n g cols false dbg) cP Ts = Done pf /\
+             verify O Digest Opening FriProof open_ok fri_verify air_eval (mkParams n g cols false dbg) cV pf = None.
 Proof. exact (stark_complete_partial O L). Qed.
 
 (* the capstone stated from "all constraints hold on the trace" (composition of C01_air_quotient_exists and the above) *)
 Theorem C01_stark_complete_valid_trace_partial :
-  forall (Digest FriProof : Type) (commit : list (list F) -> Digest) (open_ok : Digest -> F -> list F -> bool)
-    (fri_prove : list F -> FriProof) (fri_verify : FriProof -> nat -> list F -> list F -> bool)
+  forall (Digest Opening FriProof : Type) (commit : list (list F) -> Digest)
+    (open_prove : list (list F) -> list F -> Opening) (open_ok : Digest -> list F -> list (list F) -> Opening -> bool)
+    (fri_prove : list F -> list F -> FriProof) (fri_verify : FriProof -> nat -> list F -> list F -> bool)
     (air_eval : F -> list F -> list F -> F) (interp_ce : (F -> F) -> list F)
     (n cols ce_size : nat) (g : F) (ce_coset lde : list F),
-  (forall (cs : list (list F)) x, In x lde -> open_ok (commit cs) x (evals O cs x) = true) ->
-  (forall d xs, length d = n -> last d zero = zero -> incl xs lde ->
-     fri_verify (fri_prove d) (n - 2) xs (map (peval O d) xs) = true) ->
+  (forall (cs : list (list F)) xs, incl xs lde -> NoDup xs -> xs <> [] -> length xs <= 255 ->
+     open_ok (commit cs) xs (map (evals O cs) xs) (open_prove cs xs) = true) ->
+  (forall d xs, length d = n -> last d zero = zero -> incl xs lde -> xs <> [] -> length xs <= 255 ->
+     fri_verify (fri_prove d xs) (n - 2) xs (map (peval O d) xs) = true) ->
   (forall f Q, length Q <= ce_size -> (forall x, In x ce_coset -> f x = peval O Q x) ->
      interp_ce f = Q ++ repeat zero (ce_size - length Q)) ->
   (forall x, In x ce_coset -> ~ In x (domain O g n)) ->
@@ -141,10 +156,162 @@ Theorem C01_stark_complete_valid_trace_partial :
   (forall x, ~ In x (domain O g n) -> air_eval x (evals O Ts x) (evals O Ts (x *f g)) = combined O g n e N bs x) ->
   cV = cP ->
   ~ In (c_z cP) (domain O g n) -> c_z cP <> zero -> c_z cP *f g <> zero -> incl (c_xs cP) lde ->
+  NoDup (c_xs cP) -> c_xs cP <> [] -> length (c_xs cP) <= 255 ->
   (forall x, In x (c_xs cP) -> x <> c_z cP /\ x <> c_z cP *f g) ->
-  exists pf, prove O Digest FriProof commit fri_prove air_eval interp_ce (mkParams n g cols false dbg) cP Ts = Done pf /\
-             verify O Digest FriProof open_ok fri_verify air_eval (mkParams n g cols false dbg) cV pf = None.
+  exists pf, prove O Digest Opening FriProof commit open_prove fri_prove air_eval interp_ce (mkParams n g cols false dbg) cP Ts = Done pf /\
+             verify O Digest Opening FriProof open_ok fri_verify air_eval (mkParams n g cols false dbg) cV pf = None.
 Proof. exact (stark_complete_valid_trace_partial O L). Qed.
+
+(* ---- stage premises discharged from the other properties (Proofs/StarkInst.v) *)
+(* C16: zero set of an assertion divisor, in polynomial form *)
+Theorem C01_coset_vanishing : forall c h m, primitive_root O h m -> 0 < m -> c <> zero ->
+  forall x, pprod O (coset O c h m) x = fpow O x m -f fpow O c m.
+Proof. exact (coset_vanishing O L). Qed.
+
+(* C09_interpolate_with_offset_spec ==> interp_complete for interp_ce := fft::interpolate_poly_with_offset over offset*<w> *)
+Theorem C01_interp_complete_inst : forall (two_adicity : nat) (itw : list F) (K : nat) (w winv offset : F),
+  length itw = 2 ^ K -> S K <= two_adicity -> FFTSpec.root_cond O (S K) w -> w *f winv = one ->
+  FFTEval.tw_ok O itw (S K) winv -> offset <> zero -> FFTSpec.two_pow_f O (S K) *f FFTOffset.n_inv O (S K) = one ->
+  forall f Q, length Q <= ce_size K -> (forall x, In x (ce_coset O K w offset) -> f x = peval O Q x) ->
+  interp_ce O two_adicity itw K w offset f = Q ++ repeat zero (ce_size K - length Q).
+Proof. exact (interp_complete_inst O L). Qed.
+
+(* C10_new_ok / C10_build_nodes_spec / C10_batch_complete ==> merkle_complete for the Merkle model of C10 *)
+Theorem C01_merkle_complete_inst : forall (D : Type) (D_eqb : D -> D -> bool), (forall a b, D_eqb a b = true <-> a = b) ->
+  forall (d0 : D) (merge : D -> D -> D) (hash_row : list F -> D) (lde : list F) (depth : nat),
+  1 <= depth <= 62 -> length lde = 2 ^ depth ->
+  forall (cs : list (list F)) xs, incl xs lde -> NoDup xs -> xs <> [] -> length xs <= 255 ->
+  open_ok O D D_eqb merge hash_row lde (commit O D d0 merge hash_row lde cs) xs (map (evals O cs) xs)
+          (open_prove O D d0 merge hash_row lde cs xs) = true.
+Proof. exact (merkle_complete_inst O L). Qed.
+
+(* C16_transition_divisor_is_polynomial ==> ConstraintDivisor::from_transition(n, e).evaluate_at(x) is the divisor of quotient_is_poly *)
+Theorem C01_transition_divisor_inst : forall g (n e : nat) d x,
+  (exists k, (0 <= k)%Z /\ Z.of_nat n = (2 ^ k)%Z) -> (Z.of_nat n < 2 ^ 64)%Z ->
+  Enforce.fpow O g (Z.of_nat n) = one -> (forall i, (0 < i < Z.of_nat n)%Z -> Enforce.fpow O g i <> one) ->
+  e <= n -> Enforce.from_transition O g (Z.of_nat n) (Z.of_nat e) = Some d ->
+  Enforce.eval_exemptions O d x <> zero ->
+  Enforce.evaluate_at O d x = pprod O (domain O g (n - e)) x.
+Proof. exact (transition_divisor_inst O L). Qed.
+
+Theorem C01_assertion_divisor_inst : forall (n : Z) (m : nat) c h x, (n < 2 ^ 64)%Z -> (Z.of_nat m <= n)%Z ->
+  primitive_root O h m -> 0 < m -> c <> zero ->
+  Enforce.evaluate_at O (Enforce.mkD [(Z.of_nat m, fpow O c m)] []) x = pprod O (coset O c h m) x.
+Proof. exact (assertion_divisor_inst O L). Qed.
+
+(* ---- the capstone with the stages instantiated by the models of C10 (Merkle), C09 (FFT interpolation), C04 (transcript) and
+   an ARBITRARY FRI stage: remaining STAGE premise: fri_complete (discharged for the FRI model of C15 in C01_stark_complete below).  Everything else below is a shape fact, a fact about the field's roots of
+   unity / twiddles, the validity of the trace, or an assumption on the drawn values. *)
+Theorem C01_stark_complete_generic_fri :
+  forall (D : Type) (D_eqb : D -> D -> bool), (forall a b, D_eqb a b = true <-> a = b) ->
+  forall (d0 : D) (merge : D -> D -> D) (hash_row : list F -> D) (lde : list F) (depth : nat),
+  1 <= depth <= 62 -> length lde = 2 ^ depth ->
+  forall (two_adicity : nat) (rou : nat -> F) (itw : list F) (K : nat) (w offset : F),
+  (* w = get_root_of_unity(log2 ce_size) is a primitive root, itw = fft::get_inv_twiddles(ce_size)  (shape via C09_get_inv_twiddles) *)
+  S K <= two_adicity -> rou (S K) = w -> FFTSpec.root_cond O (S K) w ->
+  FFT.get_inv_twiddles O two_adicity rou (2 ^ S K) = Some itw ->
+  offset <> zero -> FFTSpec.two_pow_f O (S K) *f FFTOffset.n_inv O (S K) = one ->
+  forall (FriProof : Type) (fri_prove : list F -> list F -> FriProof) (fri_verify : FriProof -> nat -> list F -> list F -> bool)
+    (air_eval : F -> list F -> list F -> F) (sem : list (Transcript.chal * Transcript.cval) -> @Coin F)
+    (n cols ce_b : nat) (g : F),
+  (* fri_complete (C15) — the one remaining stage premise *)
+  (forall d xs, length d = n -> last d zero = zero -> incl xs lde -> xs <> [] -> length xs <= 255 ->
+     fri_verify (fri_prove d xs) (n - 2) xs (map (peval O d) xs) = true) ->
+  forall (dbg : bool) (s : Transcript.shape) (Ts : list (list F)) (e : nat) (N : list F) (bs : list (list F * list F)),
+  let cP := coin_prover sem s in
+  let cV := coin_verifier sem s in
+  primitive_root O g n -> fpow O offset (2 ^ S K) <> one ->
+  2 <= n -> 1 <= cols -> 2 ^ S K = n * ce_b -> cols <= ce_b ->
+  Ts <> [] -> Forall (fun p => length p = n) Ts -> e <= n ->
+  (forall i, i < n - e -> peval O N (fpow O g i) = zero) ->
+  length N - (n - e) <= n * cols ->
+  Forall (fun br => NoDup (snd br) /\ incl (snd br) (domain O g n) /\
+                    (forall r, In r (snd br) -> peval O (fst br) r = zero) /\ length (fst br) - length (snd br) <= n * cols) bs ->
+  (forall x, ~ In x (domain O g n) -> air_eval x (evals O Ts x) (evals O Ts (x *f g)) = combined O g n e N bs x) ->
+  ~ In (c_z cP) (domain O g n) -> c_z cP <> zero -> c_z cP *f g <> zero ->
+  incl (c_xs cP) lde -> NoDup (c_xs cP) -> c_xs cP <> [] -> length (c_xs cP) <= 255 ->
+  (forall x, In x (c_xs cP) -> x <> c_z cP /\ x <> c_z cP *f g) ->
+  exists pf,
+    prove O D (Opening D) FriProof (commit O D d0 merge hash_row lde) (open_prove O D d0 merge hash_row lde)
+          fri_prove air_eval (interp_ce O two_adicity itw K w offset) (mkParams n g cols false dbg) cP Ts = Done pf /\
+    verify O D (Opening D) FriProof (open_ok O D D_eqb merge hash_row lde) fri_verify air_eval
+           (mkParams n g cols false dbg) cV pf = None.
+Proof. exact (stark_complete O L). Qed.
+
+(* C15_fri_complete ==> fri_complete for the FRI prover/verifier of Model/Fri.v (layer trees by the Merkle model of C10) *)
+Theorem C01_fri_complete_inst :
+  forall (rou : nat -> F) (K : nat), 1 <= K -> (forall k, k < K -> rou (S k) *f rou (S k) = rou k) -> rou 1 = fneg O one ->
+  fadd O one one <> zero -> forall gen_offset : F, gen_offset <> zero ->
+  forall (dbg : bool) (D : Type) (D_eqb : D -> D -> bool), (forall a b, D_eqb a b = true <-> a = b) ->
+  forall (hash_elements : list F -> D) (MT MN : Type) (mt_new : list D -> option MT) (mt_root : MT -> D)
+    (mt_prove_batch : MT -> list nat -> option MN) (mt_verify_batch : D -> list nat -> list D -> MN -> nat -> Fri.auth_res)
+    (CS : Type) (cs_reseed : CS -> D -> CS) (cs_draw : CS -> CS * Fri.draw_res F),
+  (forall leaves d, 1 <= d -> length leaves = 2 ^ d -> exists t, mt_new leaves = Some t) ->
+  (forall leaves t d indexes dflt, mt_new leaves = Some t -> length leaves = 2 ^ d -> 1 <= d <= 62 ->
+     indexes <> [] -> length indexes <= 255 -> NoDup indexes -> (forall i, In i indexes -> i < length leaves) ->
+     exists nodes, mt_prove_batch t indexes = Some nodes /\
+       mt_verify_batch (mt_root t) indexes (map (fun i => nth i leaves dflt) indexes) nodes d = Fri.AuthOk) ->
+  (forall c, exists c' a, cs_draw c = (c', Fri.DrawOk a)) ->
+  forall f b remmax, 1 <= f -> Fri.supported_folding (2 ^ f) = true ->
+  forall (a k : nat) (coin0 : CS),
+  Fri.num_fri_layers (Fri.mkOpts (2 ^ b) (2 ^ f) remmax) (2 ^ a) = Some k -> k * f < a -> b <= a - k * f -> a <= K -> a <= 62 ->
+  forall d xs, length d = 2 ^ (a - b) -> 2 <= 2 ^ (a - b) -> incl xs (lde_of O rou gen_offset a) -> xs <> [] -> length xs <= 255 ->
+  fri_verify O rou K gen_offset dbg D D_eqb hash_elements MN mt_verify_batch CS cs_reseed cs_draw f b remmax a coin0
+    (fri_prove O rou K gen_offset D hash_elements MT MN mt_new mt_root mt_prove_batch CS cs_reseed cs_draw f b remmax a coin0 d xs)
+    (2 ^ (a - b) - 2) xs (map (peval O d) xs) = true.
+Proof. exact (fri_complete_inst O L). Qed.
+
+(* ---- THE CAPSTONE, EVERY STAGE INSTANTIATED: Merkle model of C10 (trace / constraint / FRI-layer trees), FFT interpolation of
+   C09, symbolic transcript of C04, FRI prover and verifier of C15.  NO stage premise remains.  Premises:
+     (field)     rou: the two-adic roots of unity (rou_sq, rou_1), 1+1 <> 0, offset <> 0, offset^(ce size) <> 1, 2^(S kc) invertible,
+                 rou (S kc) and g primitive roots of the CE / trace domain, itw = get_inv_twiddles;
+     (schedule)  the property's well-formed FRI schedule: k layers of exact folding 2^f, k*f < a, blowup 2^b <= remainder domain;
+                 a <= two-adicity, a <= 62;  CE domain = n * ce_b >= n * cols;
+     (coin)      draw_total: no draw exhausts its 1000 tries (outside the claim);
+     (trace)     all transition / boundary constraints hold (numerators vanish on their steps and fit the columns);
+     (z)         z outside the trace domain, z and z*g non-zero, <= 255 distinct query points of the LDE domain, different from z, z*g. *)
+Theorem C01_stark_complete :
+  forall (D : Type) (D_eqb : D -> D -> bool), (forall a b, D_eqb a b = true <-> a = b) ->
+  forall (d0 : D) (merge : D -> D -> D) (hash_elements : list F -> D)
+    (rou : nat -> F) (K : nat), 1 <= K -> (forall k, k < K -> rou (S k) *f rou (S k) = rou k) -> rou 1 = fneg O one ->
+  fadd O one one <> zero -> forall gen_offset : F, gen_offset <> zero ->
+  forall (CS : Type) (cs_reseed : CS -> D -> CS) (cs_draw : CS -> CS * Fri.draw_res F),
+  (forall c, exists c' a, cs_draw c = (c', Fri.DrawOk a)) ->
+  forall (coin0 : CS) (sem : list (Transcript.chal * Transcript.cval) -> @Coin F) (f b remmax a k : nat),
+  1 <= f -> Fri.supported_folding (2 ^ f) = true ->
+  Fri.num_fri_layers (Fri.mkOpts (2 ^ b) (2 ^ f) remmax) (2 ^ a) = Some k -> k * f < a -> b <= a - k * f -> a <= K -> a <= 62 ->
+  forall (two_adicity : nat) (itw : list F) (kc : nat),
+  S kc <= two_adicity -> FFTSpec.root_cond O (S kc) (rou (S kc)) ->
+  FFT.get_inv_twiddles O two_adicity rou (2 ^ S kc) = Some itw ->
+  FFTSpec.two_pow_f O (S kc) *f FFTOffset.n_inv O (S kc) = one ->
+  forall (dbg_fri : bool) (air_eval : F -> list F -> list F -> F) (cols ce_b : nat) (g : F)
+    (dbg : bool) (s : Transcript.shape) (Ts : list (list F)) (e : nat) (N : list F) (bs : list (list F * list F)),
+  let n := 2 ^ (a - b) in
+  let lde := lde_of O rou gen_offset a in
+  let cP := coin_prover sem s in
+  let cV := coin_verifier sem s in
+  primitive_root O g n -> fpow O gen_offset (2 ^ S kc) <> one ->
+  2 <= n -> 1 <= cols -> 2 ^ S kc = n * ce_b -> cols <= ce_b ->
+  Ts <> [] -> Forall (fun p => length p = n) Ts -> e <= n ->
+  (forall i, i < n - e -> peval O N (fpow O g i) = zero) ->
+  length N - (n - e) <= n * cols ->
+  Forall (fun br => NoDup (snd br) /\ incl (snd br) (domain O g n) /\
+                    (forall r, In r (snd br) -> peval O (fst br) r = zero) /\ length (fst br) - length (snd br) <= n * cols) bs ->
+  (forall x, ~ In x (domain O g n) -> air_eval x (evals O Ts x) (evals O Ts (x *f g)) = combined O g n e N bs x) ->
+  ~ In (c_z cP) (domain O g n) -> c_z cP <> zero -> c_z cP *f g <> zero ->
+  incl (c_xs cP) lde -> NoDup (c_xs cP) -> c_xs cP <> [] -> length (c_xs cP) <= 255 ->
+  (forall x, In x (c_xs cP) -> x <> c_z cP /\ x <> c_z cP *f g) ->
+  exists pf,
+    prove O D (Opening D) (FriProof D (list (list D)))
+          (commit O D d0 merge hash_elements lde) (open_prove O D d0 merge hash_elements lde)
+          (fri_prove O rou K gen_offset D hash_elements (Merkle.mtree D) (list (list D)) (mt_new' D d0 merge) (mt_root' D d0)
+                     (mt_prove_batch' D d0) CS cs_reseed cs_draw f b remmax a coin0)
+          air_eval (interp_ce O two_adicity itw kc (rou (S kc)) gen_offset) (mkParams n g cols false dbg) cP Ts = Done pf /\
+    verify O D (Opening D) (FriProof D (list (list D))) (open_ok O D D_eqb merge hash_elements lde)
+           (fri_verify O rou K gen_offset dbg_fri D D_eqb hash_elements (list (list D)) (mt_verify_batch' D D_eqb merge)
+                       CS cs_reseed cs_draw f b remmax a coin0)
+           air_eval (mkParams n g cols false dbg) cV pf = None.
+Proof. exact (stark_complete_all_stages O L). Qed.
 
 (* ---- tie to C20's model of polynom::syn_div_in_place (the DEEP quotients are its outputs) *)
 Theorem C01_syn_div_in_place_is_syn1 : forall p z, feqb O z zero = false -> 1 < length p ->
@@ -165,6 +332,14 @@ Print Assumptions C01_deep_assert_strict_refuted_general.
 Print Assumptions C01_query_consistency.
 Print Assumptions C01_stark_complete_partial.
 Print Assumptions C01_stark_complete_valid_trace_partial.
+Print Assumptions C01_coset_vanishing.
+Print Assumptions C01_interp_complete_inst.
+Print Assumptions C01_merkle_complete_inst.
+Print Assumptions C01_transition_divisor_inst.
+Print Assumptions C01_assertion_divisor_inst.
+Print Assumptions C01_stark_complete_generic_fri.
+Print Assumptions C01_fri_complete_inst.
+Print Assumptions C01_stark_complete.
 Print Assumptions C01_syn_div_in_place_is_syn1.
 
 (* ---- refutation of the snapshot's degree EQUALITY on a concrete valid trace (Z/17, n = 8, one constant column) *)
@@ -191,12 +366,49 @@ Print Assumptions C01_quotient_is_poly_nonvacuous.
 
 Example C01_stark_complete_nonvacuous :
   exists pf,
-    prove O17 (list (list (ZpLaws.Zp 17%Z))) (list (ZpLaws.Zp 17%Z)) (fun cs => cs) (fun d => d) air5 (fun _ => repeat (fzero O17) 16)
+    prove O17 (list (list (ZpLaws.Zp 17%Z))) unit (list (ZpLaws.Zp 17%Z)) (fun cs => cs) (fun _ _ => tt) (fun d _ => d) air5 (fun _ => repeat (fzero O17) 16)
           (mkParams 8 g17 1 false false) coin5 [T5] = Done pf /\
-    verify O17 (list (list (ZpLaws.Zp 17%Z))) (list (ZpLaws.Zp 17%Z)) (fun d x row => leqb row (evals O17 d x))
+    verify O17 (list (list (ZpLaws.Zp 17%Z))) unit (list (ZpLaws.Zp 17%Z)) (fun d xs rows _ => lleqb rows (map (evals O17 d) xs))
            (fun pf _ xs evs => leqb evs (map (peval O17 pf) xs)) air5 (mkParams 8 g17 1 false false) coin5 pf = None.
 Proof. exact stark_complete_nonvacuous. Qed.
 Print Assumptions C01_stark_complete_nonvacuous.
+
+(* C04_transcript_agree ==> the coin the verifier uses is the prover's, for every proof shape and every reading `sem` of the
+   labelled challenge list into coin values *)
+Theorem C01_transcript_agree_inst : forall (F : Type) (sem : list (Transcript.chal * Transcript.cval) -> @Coin F) s,
+  coin_verifier sem s = coin_prover sem s.
+Proof. exact @transcript_agree_inst. Qed.
+Print Assumptions C01_transcript_agree_inst.
+
+(* non-vacuity of C01_stark_complete: an instance over Z/17 (trace length 2, CE/LDE coset 3*<4>, Merkle model with D = Z,
+   FFT interpolation, transcript shape s0, transparent FRI, debug profile) in which every hypothesis holds *)
+Example C01_stark_complete_instance :
+  exists pf,
+    prove O17 Z (Opening Z) (list (ZpLaws.Zp 17%Z)) (commit O17 Z 0%Z Z.add (fun _ => 0%Z) lde4) (open_prove O17 Z 0%Z Z.add (fun _ => 0%Z) lde4)
+          (fun d _ => d) air2 (interp_ce O17 4 itw2 1 w4 (e17 3%Z))
+          (mkParams 2 g2 1 false true) (coin_prover (fun _ => coin2) TranscriptExamples.s0) [T2] = Done pf /\
+    verify O17 Z (Opening Z) (list (ZpLaws.Zp 17%Z)) (open_ok O17 Z Z.eqb Z.add (fun _ => 0%Z) lde4)
+           fri_v air2
+           (mkParams 2 g2 1 false true) (coin_verifier (fun _ => coin2) TranscriptExamples.s0) pf = None.
+Proof. exact stark_complete_instance. Qed.
+Print Assumptions C01_stark_complete_instance.
+
+(* non-vacuity of C01_stark_complete (all stages): Z/17, rou = (1,16,4,2,6), LDE = CE = 3*<2> (8 points), n = 4, FRI folding 2
+   with one layer and a 4-point remainder, Merkle model with D = Z, debug profile *)
+Example C01_stark_complete_all_stages_instance :
+  exists pf,
+    prove O17 Z (Opening Z) (FriProof Z (list (list Z)))
+          (commit O17 Z 0%Z Z.add (fun _ => 0%Z) (lde_of O17 rouF (e17 3%Z) 3)) (open_prove O17 Z 0%Z Z.add (fun _ => 0%Z) (lde_of O17 rouF (e17 3%Z) 3))
+          (fri_prove O17 rouF 4 (e17 3%Z) Z (fun _ => 0%Z) (Merkle.mtree Z) (list (list Z)) (mt_new' Z 0%Z Z.add) (mt_root' Z 0%Z)
+                     (mt_prove_batch' Z 0%Z) unit (fun c _ => c) draw4 1 1 1 3 tt)
+          air4 (interp_ce O17 4 itw8 2 (rouF 3) (e17 3%Z))
+          (mkParams (2 ^ (3 - 1)) g4 1 false true) (coin_prover (fun _ => coin4) TranscriptExamples.s0) [T4] = Done pf /\
+    verify O17 Z (Opening Z) (FriProof Z (list (list Z))) (open_ok O17 Z Z.eqb Z.add (fun _ => 0%Z) (lde_of O17 rouF (e17 3%Z) 3))
+           (fri_verify O17 rouF 4 (e17 3%Z) true Z Z.eqb (fun _ => 0%Z) (list (list Z)) (mt_verify_batch' Z Z.eqb Z.add)
+                       unit (fun c _ => c) draw4 1 1 1 3 tt)
+           air4 (mkParams (2 ^ (3 - 1)) g4 1 false true) (coin_verifier (fun _ => coin4) TranscriptExamples.s0) pf = None.
+Proof. exact stark_complete_all_stages_instance. Qed.
+Print Assumptions C01_stark_complete_all_stages_instance.
 
 (* ---- admissibility arithmetic (module Shape of Model/Stark.v; tied to the real constructors by the correspondence) *)
 Open Scope Z_scope.
